@@ -73,6 +73,7 @@ def check(ctx: Ctx) -> None:
     checksum_producers(ctx)
     metadata_reader_is_strict(ctx)
     avro_blocks_not_shrunk(ctx)
+    parsers_read_containers_strictly(ctx)
     # "a broken table is never reported as an empty one": hint-less recovery sees every metadata file only if the listing is complete
     from .c20 import r10_listing_exhaustive
     r10_listing_exhaustive(ctx, "C14.R9")
@@ -88,6 +89,43 @@ ROW_SOURCE_OWNERS: Dict[str, str] = {
     "datashard.data_operations.DataFileManager.read_data_file": "low-level utility (no caller inside the package)",
     "datashard.data_operations.DataFileManager.read_pandas_file": "low-level utility (no caller inside the package)",
 }
+
+
+def parsers_read_containers_strictly(ctx: Ctx, rid: str = "C14.R14") -> None:
+    ctx.rule(rid, "a document that is not a manifest is not an EMPTY manifest: in the manifest / manifest-list parsers the list of "
+             "entries of the JSON fallback is read with a subscript on the decoded document (`doc[\"files\"]`, KeyError -> parse "
+             "error) - never `.get(key, [])`: a manifest swapped with a sibling JSON file (the table's own metadata file, `{}`) would "
+             "load as 'no entries': scans answer with fewer rows / an empty table, the collector deletes the files it referenced "
+             "(repro: /verif/repro/repro_sibling_swap.py) [D21]", 2)
+    n = 0
+    for q in ("file_manager.FileManager.read_manifest_file", "file_manager.FileManager.read_manifest_list_file"):
+        f = ctx.fn(q)
+        g = ctx.cfg(f)
+        sl = ctx.slicer(f)
+        # the decoded documents: locals assigned from json.loads(...) (directly or through a helper analysed in place)
+        iters: List[Tuple[ast.AST, Node]] = [(x.ast.iter, x) for x in g.nodes if x.kind == "loop" and isinstance(x.ast, ast.For) and x.id in g.reachable()]
+        # ... and the comprehension form `[entry(e) for e in doc["files"]]`
+        for host in [x for x in g.nodes if x.kind in ("stmt", "return") and x.ast is not None and x.id in g.reachable()]:
+            for comp in [y for y in ast.walk(host.ast) if isinstance(y, (ast.ListComp, ast.GeneratorExp, ast.SetComp, ast.DictComp))]:
+                iters += [(gen.iter, host) for gen in comp.generators]
+        for it, lp in iters:
+            org = sl.origins(it, lp.id)
+            if not any(isinstance(c, ast.Call) and (dotted(c.func) or "").split(".")[-1] in ("loads", "load") and "json" in (dotted(c.func) or "")
+                       for c in org["calls"]):
+                continue
+            n += 1
+            lenient = [x for e in [it] + list(org["exprs"]) for x in ast.walk(e)
+                       if (isinstance(x, ast.Call) and isinstance(x.func, ast.Attribute) and x.func.attr in ("get", "pop", "setdefault") and x.args
+                           and isinstance(x.args[0], ast.Constant) and isinstance(x.args[0].value, str))]
+            # only the container of the entries counts (optional per-entry fields are read leniently on purpose)
+            top = [x for x in lenient if any(isinstance(c, ast.Call) and (dotted(c.func) or "").split(".")[-1] in ("loads", "load")
+                                            for c in sl.origins(x.func.value, lp.id)["calls"] | ({x.func.value} if isinstance(x.func.value, ast.Call) else set()))]
+            ctx.ob(rid, f, "the entry list of the JSON fallback is read strictly", lp, not top,
+                   "doc[...]: a document without the entry list fails to parse" if not top else
+                   f"`{norm_text(top[0])[:50]}` answers a missing entry list with an empty one: any JSON object loads as an empty "
+                   f"{'manifest' if 'list' not in q else 'manifest list'}")
+    if n < 2:
+        raise AnalysisError(f"only {n} JSON-fallback entry loop(s) found in the manifest parsers")
 
 
 def avro_blocks_not_shrunk(ctx: Ctx, rid: str = "C14.R13") -> None:
